@@ -19,7 +19,7 @@ func init() {
 func vpH_c01_tamper() {
 	ctx := context.Background()
 	c := vpStr(1, "a-c")
-	ev, cv, pv := vpStr(1, "x-z"), vpStr(1, "x-z"), vpStr(1, "x-z")
+	ev, cv, pv := vpStrUpTo(1, "x-z"), vpStrUpTo(1, "x-z"), vpStrUpTo(1, "x-z") // empty values included
 	r := "r" + vpStr(1, "a-c")
 	x := vpStr(1, "a-c")
 
@@ -31,6 +31,9 @@ func vpH_c01_tamper() {
 		}
 	}
 	signed := mkStep()
+	if vpParam("matrix") != 0 {
+		signed.Matrix = vpMixedMatrix("l", "u")
+	}
 	penv := map[string]string{"P": pv}
 
 	useSigner := vpBool()
@@ -58,12 +61,18 @@ func vpH_c01_tamper() {
 
 	// the presented world
 	pres := mkStep()
+	if vpParam("matrix") != 0 {
+		pres.Matrix = vpMixedMatrix("l", "u")
+	}
 	presRepo := r
 	venv := map[string]string{"P": pv, "UNRELATED": "u"}
 	rec := &pipeline.Signature{Algorithm: sig.Algorithm, SignedFields: append([]string{}, sig.SignedFields...), Value: sig.Value}
 	ks := keySet
 
 	kind := vpInt(0, 23)
+	if vpParam("matrix") != 0 {
+		kind = vpInt(24, 27)
+	}
 	switch kind {
 	case 0: // untouched
 	case 1:
@@ -134,6 +143,17 @@ func vpH_c01_tamper() {
 		pres.Env["P"] = pv
 	case 23: // plugin config key renamed
 		pres.Plugins[0].Config = map[string]any{"k" + x: cv}
+	case 24: // a named dimension changed next to the anonymous one
+		vpAssume(x != "l")
+		pres.Matrix = vpMixedMatrix(x, "u")
+	case 25: // the anonymous dimension changed next to a named one
+		vpAssume(x != "u")
+		pres.Matrix = vpMixedMatrix("l", x)
+	case 26: // a named dimension removed
+		pres.Matrix = &pipeline.Matrix{Setup: pipeline.MatrixSetup{"": {"u", "i"}}}
+	case 27: // an adjustment's skip flag flipped
+		pres.Matrix = vpMixedMatrix("l", "u")
+		pres.Matrix.Adjustments[0].Skip = false
 	}
 	verr := Verify(ctx, rec, ks, &CommandStepWithInvariants{CommandStep: *pres, RepositoryURL: presRepo}, WithEnv(venv))
 	if kind == 0 {
@@ -142,4 +162,12 @@ func vpH_c01_tamper() {
 		vpAssert(verr != nil, "any single semantic change to the step, env, repository, signature record or key makes verification fail")
 	}
 	vpAssert(len(venv) <= 2 && signed.Command == c, "verification does not write the env map")
+}
+
+// vpMixedMatrix: a matrix that mixes the anonymous dimension with a named one and has an adjustment.
+func vpMixedMatrix(os, anon string) *pipeline.Matrix {
+	return &pipeline.Matrix{
+		Setup:       pipeline.MatrixSetup{"": {anon, "i"}, "os": {os}},
+		Adjustments: pipeline.MatrixAdjustments{{With: pipeline.MatrixAdjustmentWith{"": "a", "os": "w"}, Skip: true}},
+	}
 }
